@@ -176,7 +176,7 @@ Section Proofs.
     destruct HP1 as [I1 I2 I3 I4 I5]. rewrite Ep in *. simpl in I1, I2, I3.
     injection I2 as Bi Brest. subst i.
     exists s1, orc1, tr1, p, rest. rewrite Ees, Ecl.
-    split; [reflexivity|]. split; [reflexivity|]. split; [reflexivity|].
+    split; [reflexivity|]. split; [exact Ep|]. split; [reflexivity|].
     destruct HE as [E1 E2 E3 E4]. split.
     - constructor; simpl.
       + lia.
@@ -186,7 +186,7 @@ Section Proofs.
       + rewrite chk_run_app, I5. simpl. now rewrite !Nat.eqb_refl.
     - constructor; simpl.
       + now rewrite E1.
-      + rewrite map_app, E2. simpl. now rewrite seq_S.
+      + change (0 :: seq 1 cn) with (seq 0 (S cn)). rewrite map_app, E2, seq_S. reflexivity.
       + rewrite E3, results_app, <- app_assoc. unfold results at 3. simpl. now rewrite app_nil_r.
       + rewrite E4. lia.
   Qed.
@@ -282,8 +282,8 @@ Section Proofs.
     Lemma submit_GInv s : GInv s -> GInv (submit s).
     Proof.
       intros [G1 [G2 G3]]. destruct (prepare_ok (es s) (qs s) (nxt s) G3) as [H1 H2].
-      unfold GInv. rewrite submit_clog, submit_pend, submit_qs. repeat split; auto.
-      apply Forall_app. split; auto.
+      unfold GInv. rewrite submit_clog, submit_pend, submit_qs.
+      split; [exact G1|]. split; [apply Forall_app; split; auto | exact H2].
     Qed.
 
     Theorem infer_supplied maxp pre : forall fuel s orc tr cn,
@@ -303,12 +303,22 @@ Section Proofs.
           assert (HG1 : GInv s1).
           { eapply (submit_loop_preserves GInv); [|exact HG|exact Hs]. intros x Hx _. now apply submit_GInv. }
           destruct HG1 as [G1 [G2 G3]]. destruct (submit_loop_es _ _ _ _ _ _ _ _ Hs) as [_ Ecl].
-          rewrite Hp in G2. inversion G2; subst. rewrite Ecl in G1.
-          unfold GInv. simpl. repeat split; auto. apply Forall_app. split; auto.
+          rewrite Hp in G2. inversion G2 as [|x0 l0 Gx Gl]; subst. rewrite Ecl in G1.
+          unfold GInv. simpl. split; [apply Forall_app; split; auto|]. split; [exact Gl | exact G3].
     Qed.
 
     Lemma GInv_initial pre a : GInv (sched0 P T A c pre a).
     Proof. unfold GInv, Qinv. simpl. repeat split; auto. exists 0. reflexivity. Qed.
+
+    Theorem supplied_rows maxp fuel pre a orc s tr :
+      1 <= maxp -> infer fuel maxp (sched0 P T A c pre a) orc [] = inl (s, tr) ->
+      Forall supplied_ok (clog s) /\ Forall acq_entry_ok (acqlog (qs s)).
+    Proof.
+      intros Hm H.
+      pose proof (infer_supplied maxp pre fuel (sched0 P T A c pre a) orc [] 0 Hm (InvP_initial maxp _ _) (InvE_initial pre a)
+                                 (GInv_initial pre a)) as HG.
+      rewrite H in HG. destruct HG as [G1 [_ [_ [_ G4]]]]. split; [exact G1 | exact G4].
+    Qed.
   End Supplied.
 
   (** ---- synchronous acquisition: every schedule is the sequential run ---- *)
@@ -396,9 +406,8 @@ Section Proofs.
       intros x Hx Hg. eapply submit_SInv; eauto. }
     destruct (submit_loop_es _ _ _ _ _ _ _ _ Hs) as [Ees _].
     destruct HS1 as [S1 S2]. rewrite Hp, Ees in S2. simpl in S2. destruct S2 as [_ [Bp Bc]]. rewrite Hp in S1. simpl in S1.
-    eexists _, _, _. split; [exact Hit|]. subst p. repeat split; auto.
-    - simpl. lia.
-    - simpl. apply chain_na_chain. eapply chain_na_indep. exact Bc.
+    eexists _, _, _. split; [exact Hit|]. subst p. split; [exact HP'|]. split; [exact HE'|]. split; [|split; reflexivity].
+    constructor; simpl; [lia | apply chain_na_chain; eapply chain_na_indep; exact Bc].
   Qed.
 
   Theorem infer_sync maxp pre : forall fuel s orc tr cn qc ef qf n lgf,
@@ -427,6 +436,40 @@ Section Proofs.
   Lemma SInv_initial pre a : SInv (sched0 P T A c pre a) 0 (qstate0 P A a).
   Proof. constructor; simpl; auto. Qed.
 
+  Theorem sync_schedule_independent maxp fuel pre a orc ef qf n lgf :
+    c_async c = false -> 1 <= maxp ->
+    seq_run fuel (estate0 P T c pre) (qstate0 P A a) 0 [] = Some (ef, qf, n, lgf) ->
+    exists s tr,
+      infer fuel maxp (sched0 P T A c pre a) orc [] = inl (s, tr) /\
+      es s = ef /\ qs s = qf /\ clog s = lgf /\ nxt s = n /\ pend s = [] /\ trace_ok maxp tr = Some n.
+  Proof.
+    intros Has Hm Hseq.
+    destruct (infer_sync maxp pre fuel (sched0 P T A c pre a) orc [] 0 (qstate0 P A a) ef qf n lgf Has Hm
+                (InvP_initial _ _ _) (InvE_initial pre a) (SInv_initial pre a) Hseq)
+      as [s [tr [H1 [H2 [H3 [H4 [H5 H6]]]]]]].
+    exists s, tr. destruct H6 as [F1 [F2 [F3 [F4 _]]]].
+    split; [exact H1|]. split; [exact H2|]. split; [exact H3|]. split; [exact H4|]. split; [exact H5|].
+    split; [exact F1|]. rewrite F4. f_equal. lia.
+  Qed.
+
+  Lemma results_length lg : (forall i p, length (compute i p) = c_b c) -> length (results lg) = c_b c * length lg.
+  Proof.
+    intros Hlen. induction lg as [|ip lg IH]; simpl; [lia|]. rewrite app_length, Hlen, IH. lia.
+  Qed.
+
+  Theorem n_evidence_counts_rows maxp fuel pre a orc s tr :
+    1 <= maxp -> (forall i p, length (compute i p) = c_b c) -> c_npre c = Z.of_nat (length pre) ->
+    infer fuel maxp (sched0 P T A c pre a) orc [] = inl (s, tr) ->
+    n_ev (es s) = Z.of_nat (length (ev (es s))).
+  Proof.
+    intros Hm Hlen Hpre H.
+    pose proof (infer_bookkeeping maxp pre fuel (sched0 P T A c pre a) orc [] 0 Hm (InvP_initial maxp _ _) (InvE_initial pre a)) as HB.
+    rewrite H in HB. destruct HB as [_ [_ [_ [_ [F5 [F6 F7]]]]]].
+    rewrite F7, F6, app_length, results_length by exact Hlen.
+    assert (Hl : length (clog s) = nb (es s)) by (rewrite <- (map_length fst), F5; apply seq_length).
+    rewrite Hl, Hpre. lia.
+  Qed.
+
   (** ---- in the sequential run every acquisition sees exactly the evidence of the earlier batches ---- *)
   Section SeqCounts.
     Variable pre : list (P * T).
@@ -450,9 +493,21 @@ Section Proofs.
             -- inversion Ep; subst; auto.
             -- destruct (queue q).
                ++ destruct (acq (ast q) (ev e) (c_b c * c_bpa c) (acq_index c i)) as [rows a'].
-                  inversion Ep; subst. simpl. apply Forall_app. split; auto.
+                  inversion Ep; subst. simpl. apply Forall_app. split; [exact Hq|].
                   constructor; [|constructor]. simpl. exact He.
                ++ inversion Ep; subst; auto.
+    Qed.
+
+    Theorem sync_acquisition_counts maxp fuel a orc ef qf n lgf :
+      c_async c = false -> 1 <= maxp ->
+      seq_run fuel (estate0 P T c pre) (qstate0 P A a) 0 [] = Some (ef, qf, n, lgf) ->
+      exists s tr,
+        infer fuel maxp (sched0 P T A c pre a) orc [] = inl (s, tr) /\ Forall cnt_ok (acqlog (qs s)).
+    Proof.
+      intros Has Hm Hseq.
+      destruct (sync_schedule_independent maxp fuel pre a orc ef qf n lgf Has Hm Hseq) as [s [tr [H1 [_ [H3 _]]]]].
+      exists s, tr. split; [exact H1|]. rewrite H3.
+      eapply (seq_run_counts fuel _ _ 0 [] ef qf n lgf); [| |exact Hseq]; simpl; [lia | constructor].
     Qed.
   End SeqCounts.
 End Proofs.
